@@ -60,6 +60,7 @@ class Profile:
         self.timed_items = True  # timed effects and timed goals
         self.fixed_durations_only = False
         self.dur_fluents_grow = True
+        self.decimal_only = False  # only rationals with finite decimal expansions
         for k, v in kw.items():
             if not hasattr(self, k):
                 raise AttributeError(k)
@@ -248,7 +249,7 @@ class Gen:
         if self.p.big_consts and self.b(0.15):
             return ["i", self.pick([2**53 + 1, -(2**60) - 1, 3 * (2**60 + 1), 10**20 + 7])]
         if self.p.real_consts and self.b(0.2):
-            return ["r", str(Fraction(self.i(-5, 7), self.pick([2, 3, 4])))]
+            return ["r", str(Fraction(self.i(-5, 7), self.pick([2, 4, 5] if self.p.decimal_only else [2, 3, 4])))]
         return ["i", self.i(-3, 5)]
 
     # ------------------------------------------------------------ terms
@@ -363,7 +364,7 @@ class Gen:
             return ["-", self.num_expr(scope, depth - 1, want_int), self.num_expr(scope, depth - 1, want_int)]
         if k < 9 or want_int or not self.p.division:
             return ["*", self.num_expr(scope, depth - 1, want_int), self.num_expr(scope, depth - 1, want_int)]
-        d = self.pick([2, -2, 3, 4, -1])
+        d = self.pick([2, -2, 4, 5, -1] if self.p.decimal_only else [2, -2, 3, 4, -1])
         return ["/", self.num_expr(scope, depth - 1), ["i", d]]
 
     def bool_atom(self, scope, depth):
@@ -393,11 +394,28 @@ class Gen:
                 tn = self.pick(self.types)[0]
                 a = self.obj_term(tn, scope, depth)
                 b = self.obj_term(tn, scope, depth)
-                if a is not None and b is not None:
+                if a is not None and b is not None and a != b:
                     return ["=", a, b]
-            return ["=", self.num_expr(scope, depth - 1), self.num_expr(scope, depth - 1)]
+            x, y = self.num_expr(scope, depth - 1), self.num_expr(scope, depth - 1)
+            if x != y and not (x[0] in ("i", "r") and y[0] in ("i", "r")):
+                return ["=", x, y]
+            # syntactically trivial equalities (o == o, 3 == 3) are only generated by profiles that ask
+            # for constant atoms
+            bf = [f for f in self.fluents if f["type"] == "bool"]
+            r = self.fluent_app(self.pick(bf), scope, depth)
+            return r if r is not None else ["b", True]
         op = self.pick(["<=", "<", ">=", ">"])
-        return [op, self.num_expr(scope, depth - 1), self.num_expr(scope, depth - 1)]
+        x, y = self.num_expr(scope, depth - 1), self.num_expr(scope, depth - 1)
+        if x[0] in ("i", "r") and y[0] in ("i", "r"):
+            # constant-only comparisons are generated only through const_atoms
+            nums = [f for f in self.fluents if f["type"] != "bool" and f["type"][0] in ("int", "real")]
+            r = self.fluent_app(self.pick(nums), scope, 0) if nums else None
+            if r is None:
+                bf = [f for f in self.fluents if f["type"] == "bool"]
+                r2 = self.fluent_app(self.pick(bf), scope, depth)
+                return r2 if r2 is not None else ["b", True]
+            x = r
+        return [op, x, y]
 
     def bool_expr(self, scope, depth):
         if depth <= 0:
